@@ -11,7 +11,9 @@ import (
 	"sort"
 	"strings"
 
+	"gorm.io/driver/sqlite"
 	"gorm.io/gorm"
+	"gorm.io/gorm/clause"
 
 	"verifharness/gdb"
 	"verifharness/lib"
@@ -106,6 +108,10 @@ type Input struct {
 	PtrBatch bool `json:"ptr_batch,omitempty"`
 	// SelNull: the select-columns comparison uses Select("n"), one nullable column (known finding)
 	SelNull bool `json:"sel_null,omitempty"`
+	// OrdVia: how the ordering reaches the statement: "" Order("id desc") | expr
+	// Clauses(clause.OrderBy{Expression}) | reorder (an earlier Order(v) replaced by a Reorder column) |
+	// column Order(clause.OrderByColumn{...})
+	OrdVia string `json:"ord_via,omitempty"`
 }
 
 type Obs struct {
@@ -155,6 +161,9 @@ type Obs struct {
 	// either runs: one adds Order("id"), the other Order("id desc")
 	SibAsc  []Row `json:"sib_asc"`
 	SibDesc []Row `json:"sib_desc"`
+	// Find through gorm's own LIMIT / OFFSET rendering (GRun false: statement not valid SQLite)
+	GFind []Row `json:"g_find"`
+	GRun  bool  `json:"g_run"`
 }
 
 func chain(db *gorm.DB, in Input) *gorm.DB {
@@ -183,13 +192,24 @@ func chain(db *gorm.DB, in Input) *gorm.DB {
 			}
 		}
 	}
-	switch in.Ord {
-	case "id_asc":
-		tx = tx.Order("id")
-	case "id_desc":
-		tx = tx.Order("id desc")
-	case "v_asc":
-		tx = tx.Order("v")
+	col := map[string]clause.OrderByColumn{
+		"id_asc":  {Column: clause.Column{Name: "id"}},
+		"id_desc": {Column: clause.Column{Name: "id"}, Desc: true},
+		"v_asc":   {Column: clause.Column{Name: "v"}},
+	}[in.Ord]
+	text := map[string]string{"id_asc": "id", "id_desc": "id desc", "v_asc": "v"}[in.Ord]
+	if in.Ord != "none" && in.Ord != "" {
+		switch in.OrdVia {
+		case "expr":
+			tx = tx.Clauses(clause.OrderBy{Expression: clause.Expr{SQL: text}})
+		case "reorder":
+			col.Reorder = true
+			tx = tx.Order("v desc").Order(col)
+		case "column":
+			tx = tx.Order(col)
+		default:
+			tx = tx.Order(text)
+		}
 	}
 	for _, l := range in.Lops {
 		if l.Kind == "limit" {
@@ -232,6 +252,10 @@ func asInt(v interface{}) int64 {
 	}
 	return -999999
 }
+
+// dbGeneric: a handle on the same database whose LIMIT clause is rendered by gorm's own
+// clause.Limit.Build (the SQLite dialector installs its own builder for that clause).
+var dbGeneric *gorm.DB
 
 func run(db *gorm.DB, in Input) (o Obs) {
 	defer func() {
@@ -289,6 +313,22 @@ func run(db *gorm.DB, in Input) (o Obs) {
 	var scanned []Item
 	fail("scan", chain(db, in).Model(&Item{}).Scan(&scanned).Error)
 	o.Scan = toRows(scanned)
+	{
+		// Scan into a slice of another struct type (only the matching columns): same rows, same order
+		type dto struct {
+			ID int64
+			V  int64
+		}
+		var ds []dto
+		fail("scan_dto", chain(db, in).Model(&Item{}).Scan(&ds).Error)
+		same := len(ds) == len(o.Scan)
+		for i := 0; same && i < len(ds); i++ {
+			same = ds[i].ID == o.Scan[i].ID && ds[i].V == o.Scan[i].V
+		}
+		if !same {
+			o.Errs = append(o.Errs, fmt.Sprintf("Scan into another struct type: %v, Scan into the model: %v", ds, o.Scan))
+		}
+	}
 	// further destination kinds: slice of pointers, array, one struct, one primitive
 	{
 		var ptrs []*Item
@@ -421,10 +461,32 @@ func run(db *gorm.DB, in Input) (o Obs) {
 		fail("batches", r.Error)
 		o.BatchesRA = r.RowsAffected
 	}
+	genericLimit(in, &o)
 	selectedColumns(db, in, &o)
 	compositeKeys(db, in, &o)
 	inlineAndSiblings(db, in, &o)
 	return o
+}
+
+// genericLimit: the same Find through gorm's generic LIMIT / OFFSET rendering. A statement with an
+// OFFSET but no LIMIT is not valid SQLite and is only inspected, not run.
+func genericLimit(in Input, o *Obs) {
+	o.GFind, o.GRun = []Row{}, false
+	if dbGeneric == nil {
+		return
+	}
+	var probe []Item
+	st := chain(dbGeneric, in).Session(&gorm.Session{DryRun: true}).Find(&probe).Statement
+	sql := st.SQL.String()
+	if strings.Contains(sql, "OFFSET") && !strings.Contains(sql, "LIMIT") {
+		return
+	}
+	var items []Item
+	if err := chain(dbGeneric, in).Find(&items).Error; err != nil {
+		o.Errs = append(o.Errs, "generic limit: "+err.Error()+" ["+sql+"]")
+		return
+	}
+	o.GFind, o.GRun = toRows(items), true
 }
 
 // inlineAndSiblings: finders with one inline primary key; Count followed by a page read continued
@@ -631,7 +693,8 @@ func term(in Input, o Obs) string {
 			return lib.Pair(lib.Pair(lib.Z(p[0]), lib.Pair(lib.Z(p[1]), lib.Z(p[2]))), lib.Pair(lib.Z(p[3]), lib.Z(p[4])))
 		}),
 		lib.Z(o.InlKey), lib.ListOf(o.Inl, gORow), gRows(o.InlFind),
-		gRows(o.CPage), gRows(o.Page), lib.Z(o.CPageN), gRows(o.SibAsc), gRows(o.SibDesc))
+		gRows(o.CPage), gRows(o.Page), lib.Z(o.CPageN), gRows(o.SibAsc), gRows(o.SibDesc),
+		lib.Bool(o.GRun), gRows(o.GFind))
 }
 
 // ---- generation ----
@@ -709,7 +772,7 @@ func shape(in Input) string {
 	for _, l := range in.Lops {
 		fmt.Fprintf(&sb, "%s%d,", l.Kind[:1], l.N)
 	}
-	fmt.Fprintf(&sb, "|bs%d%v", in.BS, in.PtrBatch)
+	fmt.Fprintf(&sb, "|bs%d%v|%s", in.BS, in.PtrBatch, in.OrdVia)
 	return sb.String()
 }
 
@@ -726,6 +789,12 @@ func main() {
 	db, _, _, err := gdb.Open(gdb.Opt{})
 	lib.Must(err)
 	lib.Must(db.AutoMigrate(&Item{}, &CK{}))
+	if sqlDB, err := db.DB(); err == nil {
+		if g, err := gorm.Open(sqlite.Dialector{Conn: sqlDB}, &gorm.Config{Logger: db.Logger}); err == nil {
+			delete(g.ClauseBuilders, "LIMIT")
+			dbGeneric = g
+		}
+	}
 	out := lib.NewOut(a.Out, "C15")
 
 	add := func(kind string, in Input) {
@@ -814,6 +883,7 @@ func main() {
 		}
 		in := Input{Tbl: genTable(r, n), Cond: genCond(r), Lops: genLops(r, edge)}
 		in.Ord = lib.Pick(r, []string{"none", "none", "id_asc", "id_desc", "v_asc"})
+		in.OrdVia = lib.Pick(r, []string{"", "", "reorder", "column"}) // (an OrderBy EXPRESSION is dropped by any later Order, e.g. the one First / Last add: not generated)
 		if in.Ord == "none" && in.Cond.Kind == "seq" {
 			// without ORDER BY the row order is the database's choice, and SQLite answers an OR of
 			// two key ranges index by index: such chains always carry an explicit order
